@@ -103,6 +103,12 @@ def describe(pid, cfg, w, ctx):
         rep['harness_cmd'] = ['replay', 'bytes', 'set1' if kind == 'bytes1' else 'set2', ','.join(str(b) for b in inp)]
         rep['expected'] = tok_sc(w['expected'], en)
         rep['model_actual'] = tok_sc(w['actual'], en)
+    elif kind == 'bytesN':
+        setn, bs = inp[0], inp[1:]
+        rep['input_text'] = "set %d bytes %s" % (setn, ' '.join('%02x' % b for b in bs))
+        rep['harness_cmd'] = ['replay', 'bytes', 'set%d' % setn, ','.join(str(b) for b in bs)]
+        rep['expected'] = tok_sc(w['expected'], en)
+        rep['model_actual'] = tok_sc(w['actual'], en)
     elif kind == 'layout':
         form = {0: '', 1: 'Any.', 2: 'Ref.'}[inp[0]] if len(inp) > 4 else ''
         if len(inp) > 4:
